@@ -259,6 +259,42 @@ class Program:
                         if isinstance(st_, (ast.FunctionDef, ast.AsyncFunctionDef)):
                             counts[st_.name] = counts.get(st_.name, 0) + 1
         ambiguous = {n for n, k in counts.items() if k > 1}
+        # ... but a call through `self` / `cls` inside the defining class is only unresolvable when two of the defining classes are related by
+        # inheritance (one could override the other); unrelated classes that happen to share a private method name do not matter
+        bases_of: Dict[str, set] = {}
+        defs_in: Dict[str, set] = {}
+        for _n, _p, _s, tree, _k in parsed:
+            for c_ in ast.walk(tree):
+                if isinstance(c_, ast.ClassDef):
+                    bn = set()
+                    for b_ in c_.bases:
+                        for x_ in ast.walk(b_):
+                            if isinstance(x_, ast.Name):
+                                bn.add(x_.id.lstrip("_"))
+                            elif isinstance(x_, ast.Attribute):
+                                bn.add(x_.attr.lstrip("_"))
+                    bases_of.setdefault(c_.name.lstrip("_"), set()).update(bn)
+                    for st_ in c_.body:
+                        if isinstance(st_, (ast.FunctionDef, ast.AsyncFunctionDef)):
+                            defs_in.setdefault(st_.name, set()).add(c_.name.lstrip("_"))
+
+        def ancestors(cn: str) -> set:
+            seen_, todo_ = set(), [cn]
+            while todo_:
+                x_ = todo_.pop()
+                for b_ in bases_of.get(x_, ()):
+                    if b_ not in seen_:
+                        seen_.add(b_)
+                        todo_.append(b_)
+            return seen_
+        self_ambiguous = set()
+        for n_, cs_ in defs_in.items():
+            if counts.get(n_, 0) > len(cs_):  # two classes of one (alias-stripped) name define it: related by construction
+                self_ambiguous.add(n_)
+                continue
+            for c1 in cs_:
+                if ancestors(c1) & (cs_ - {c1}):
+                    self_ambiguous.add(n_)
         def short(nm: str) -> str:
             return nm.replace(PKG + ".", "", 1) if nm != PKG else ""
         self.renamed = normalise_names([(short(n_), t_, k_) for n_, _p, _s, t_, k_ in parsed])
@@ -272,7 +308,7 @@ class Program:
         processed = []
         for name, path, src, tree, is_pkg in parsed:
             elsewhere = set().union(*[v for k_, v in attr_by_module.items() if k_ != name]) if len(attr_by_module) > 1 else set()
-            tree, inl = inline_new_helpers(tree, short(name), ambiguous, pkg_funcs, pkg_meths, is_pkg, imported | elsewhere, pkg_bindings)
+            tree, inl = inline_new_helpers(tree, short(name), ambiguous, pkg_funcs, pkg_meths, is_pkg, imported | elsewhere, pkg_bindings, self_ambiguous)
             if inl:
                 self.inlined[name] = inl
             processed.append((name, path, src, tree, is_pkg))
@@ -327,7 +363,7 @@ class Program:
                         for st_ in c_.body:
                             if isinstance(st_, (ast.FunctionDef, ast.AsyncFunctionDef)) and st_.name in inl_methods:
                                 count[st_.name] = count.get(st_.name, 0) + 1
-            dup = sorted(n for n, k in count.items() if k > 1)
+            dup = sorted(n for n, k in count.items() if k > 1 and n in self_ambiguous)
             if dup:
                 raise AnalysisError(f"new method(s) {dup} are defined in more than one class: calls through self cannot be resolved by the inliner")
         for m in self.modules.values():
